@@ -50,6 +50,18 @@ Theorem C07_names_unique : forall method_name l, dedup_total method_name l = tru
 Proof. exact emitted_unique. Qed.
 Print Assumptions C07_names_unique.
 
+(* F07c fixed.  FULL: for every operation list with distinct (METHOD, path) pairs and every
+   normalisation function, each operation is exactly once in the group of each of its tags, however the
+   tags are spelled; and globally unique method names are unique per client. *)
+Theorem C07_once_per_tag : forall tag_key l, distinct_ops l -> once_per_tag tag_key l.
+Proof. exact once_per_tag_full. Qed.
+Print Assumptions C07_once_per_tag.
+
+Theorem C07_names_unique_per_client : forall method_name tag_key e,
+  NoDup (map (fun o => method_name (o_id o)) e) -> names_unique method_name tag_key e.
+Proof. exact names_unique_full. Qed.
+Print Assumptions C07_names_unique_per_client.
+
 (* names follow the strategy: position by position, an emitted operation is the parsed one with
    id = derive_id strategy op, followed by at most two "_<k>" suffixes (one per de-dup pass) *)
 Theorem C07_strategy : forall method_name clean_id st doc,
@@ -61,8 +73,7 @@ Proof. exact strategy_shape. Qed.
 Print Assumptions C07_strategy.
 
 (* The property on the model under the guard: (METHOD, path) pairs distinct, no operation skipped
-   [F07f], the de-dup search stays within the model bound, no operation carries two spellings of one tag
-   [F07c]  ==>  no operation is lost, each is exactly once in the group of each of its tags, method
+   [F07f], the de-dup search stays within the model bound  ==>  no operation is lost, each is exactly once in the group of each of its tags, method
    names are unique per client, and APIClient's tag table equals the emitter's.
    PARTIAL: the last step groups -> files/properties (distinct module names [F07d, F07e]) is tied to
    the code by the correspondence run only. *)
@@ -70,7 +81,6 @@ Theorem C07_partial : forall method_name tag_key clean_id score st doc,
   doc_distinct doc ->
   guard_F07f method_name clean_id st doc = true ->
   dedup_total method_name (parse method_name clean_id st doc) = true ->
-  guard_F07c tag_key (parse method_name clean_id st doc) = true ->
   let e := emitted_ops method_name (parse method_name clean_id st doc) in
   length e = length (ops doc)
   /\ once_per_tag tag_key e
@@ -83,7 +93,6 @@ Theorem C07_guard_nonvacuous :
   doc_distinct doc_ok
   /\ guard_F07f idf no_clean SOpId doc_ok = true
   /\ dedup_total idf (parse idf no_clean SOpId doc_ok) = true
-  /\ guard_F07c key_F07c (parse idf no_clean SOpId doc_ok) = true
   /\ length (ops doc_ok) = 2%nat
   /\ map o_id (emitted_ops idf (parse idf no_clean SOpId doc_ok)) = [s_a; s_a ++ [95;50]].
 Proof. exact guard_nonvacuous. Qed.
@@ -114,10 +123,12 @@ Theorem C07_refuted_F07f :
 Proof. exact refuted_F07f. Qed.
 Print Assumptions C07_refuted_F07f.
 
-Theorem C07_refuted_F07c :
-  guard_F07c key_F07c [op_F07c] = false /\ ~ once_per_tag key_F07c [op_F07c].
-Proof. exact refuted_F07c. Qed.
-Print Assumptions C07_refuted_F07c.
+Theorem C07_fixed_F07c :
+  group key_F07c [op_F07c] = [(s_users, [op_F07c])]
+  /\ candidates key_F07c [op_F07c] = [(s_users, [s_Users; s_users])]
+  /\ once_per_tag key_F07c [op_F07c].
+Proof. exact fixed_F07c. Qed.
+Print Assumptions C07_fixed_F07c.
 
 Theorem C07_refuted_F07d :
   guard_F07d key_F07d ident_F07d ops_F07d = false
